@@ -7,7 +7,7 @@
    stages, any number of sweeps) and ANY schedule. *)
 From Coq Require Import List Bool Arith ZArith Lia.
 Import ListNotations.
-From Stab.model Require Import Base StatusM Readiness StageStat Engine Conc.
+From Stab.model Require Import Base StatusM Readiness StageStat Conc.
 From Stab.gen Require Import Gen_Config Gen_Guards Gen_Occ Gen_Conc.
 From Stab.proofs Require Import ConcP.
 
